@@ -50,6 +50,21 @@ def stimuli(rng, count):
     return out
 
 
+def weighted_family(rng, count):
+    """6-8 items, 2-3 bins, unequal small weights: the weighted sums are fractions, so two partitions can differ in objective by less than 1 - what a
+    solver tolerance (absolute gap, rounding of the objective) would blur"""
+    out = []
+    for i in range(count):
+        k = rng.choice([2, 2, 3])
+        n = rng.randint(6, 8 if k == 2 else 7)
+        vals = [rng.randint(1, 30) for _ in range(n)]
+        w = rng.sample([2, 3, 5, 7, 1], k)
+        o, kp = [("minsum", 0), ("maxsum", 0), ("diff", 0), ("minsum", 0)][i % 4]
+        out.append({"vals": vals, "k": k, "copies": [1] * n, "copies_scalar": True, "w": w, "cons": "none", "c": 0, "inject": "", "fmt": "list" if i % 2 else "dict",
+                    "o": o, "kp": kp})
+    return out
+
+
 def ctx_of(fl):
     t = fl["trace"]
     return {"alg": "ilp", "vals": t["vals"], "k": t["k"], "o": t["o"], "kp": t["kp"], "copies": t["copies"], "weights": t["w"] if t["wgiven"] else None, "cons": t["cons"], "c": t["c"], "fmt": t.get("fmt"),
@@ -60,6 +75,7 @@ def run(ck):
     q = ck.quick()
     models.ilp_mc(ck, q)
     stim = stimuli(ck.rng, 420 if q else 8000)
+    stim += weighted_family(ck.rng, 600 if q else 4000)
     # the pinned examples
     stim += [{"vals": [10, 1], "k": 2, "o": "minsum", "kp": 0, "copies": [1, 1], "copies_scalar": True, "w": [10, 1], "cons": "none", "c": 0, "inject": ""},
              {"vals": [3, 3], "k": 2, "o": "minsum", "kp": 0, "copies": [1, 1], "copies_scalar": True, "w": [1, 2], "cons": "none", "c": 0, "inject": ""},
@@ -93,7 +109,7 @@ def run(ck):
             ck.nontrivial.add(json_key([t[x] for x in ("vals", "k", "o", "kp", "copies", "w", "wgiven", "cons", "c", "inject", "fmt")]))
     ck.sample({x: keep[3][x] for x in ("vals", "k", "o", "copies", "w", "cons", "c", "out", "lists", "sums")})
     ck.sample({x: keep[-1][x] for x in ("vals", "k", "o", "copies", "w", "cons", "c", "inject", "out")})
-    ck.rule = ("seeded requests to the ILP partitioner: values <=200, 1-5 items, 1-4 bins, copies as one number or per item (0/1/2), weight vectors from {1,2,3,10}, the three additional-"
+    ck.rule = ("seeded requests to the ILP partitioner: values <=200, 1-5 items, 1-4 bins (plus 6-8 items with unequal small weights, where weighted objectives differ by fractions), copies as one number or per item (0/1/2), weight vectors from {1,2,3,10}, the three additional-"
                "constraint forms with feasible and infeasible constants, all five objectives, and every non-OPTIMAL solver status injected through a wrapper of mip.Model.optimize; TLC "
                "enumerates every assignment of the item copies to the bins (ReachU) and judges copies, ascending order / bin-weight correspondence, the constraint, optimality under the "
                "MIP's ordering (S2) and over all assignments (S1), and refusal. non-trivial = distinct request with >=2 items and >=2 bins")
